@@ -162,8 +162,11 @@ def make_program(kind, seed, extra=()):
                 crec["f"] = fid
     # --- restriction to the export subset (see ASSUMPTIONS in eng_export.py) ---
     for f in defs["flib"].values():
-        if "pfrefs" not in extra:
-            f.pop("refs", None)          # a parameter formula returns None (no extra references)
+        if "pfrefs" not in extra and f.get("style") == "pf":
+            # a parameter formula returns None: no {'refs': ...}, no {'base': ...} (the exporter
+            # reads the signature of a parameter formula only, exporter.py:520-544)
+            for k in [k for k in f if k not in ("ps", "ops", "catch", "onerr", "style")]:
+                del f[k]
         for op in f["ops"]:
             if op[0] in ("call", "read", "icall"):
                 op[1] = ["_space" if x == "_self" else x for x in op[1]]      # _self is deprecated
@@ -214,7 +217,7 @@ def flipped(defs):
     return d
 
 
-def variants_of(defs, seed, tier="quick", only=None, probes=True):
+def variants_of(defs, seed, tier="quick", only=None):
     """Template assignments: [{"name":..., "tmap": [[path, cells, template]...], "pick": k,
     "flip": bool}].  "plain" first; then uniform templates rotating with the seed; then "mixed"
     (every defined cells its own template).  `flip`: also export with all cached flags flipped."""
@@ -228,15 +231,6 @@ def variants_of(defs, seed, tier="quick", only=None, probes=True):
     else:
         k = seed % len(T)
         names = ["plain", T[k], T[(k + len(T) // 2) % len(T)], "mixed"]
-    has_catch = any(f.get("catch") for f in defs["flib"].values())
-    # (not on programs with handlers or built-in-named globals: there the defect shows as an
-    #  arbitrary value instead of a NameError and could not be told from other defects)
-    if not only and probes and not has_catch and not defs["deco"]["renamed"]:
-        # probes of the two known transformer defects (see export_templates.PROBES)
-        if seed % 4 == 0:
-            names.append("kf_paren")
-        elif seed % 4 == 1:
-            names.append("kf_compscope")
     out = []
     for nm in names:
         if nm == "mixed":
@@ -247,7 +241,7 @@ def variants_of(defs, seed, tier="quick", only=None, probes=True):
         syn = [[p, c, ft] for p, c, t in tmap
                for ft in xt.features(flib[dict((tuple(q), cs) for q, cs in defs["cells"])[tuple(p)][c]["f"]], t)]
         out.append({"name": nm, "tmap": tmap, "pick": rng.randrange(100), "syn": syn,
-                    "flip": nm in ("plain", "mixed") or (tier == "all" and not nm.startswith("kf_"))})
+                    "flip": nm in ("plain", "mixed") or tier == "all"})
     return out
 
 
